@@ -6,6 +6,8 @@ mod ext;
 mod ext2;
 mod ext3;
 mod ext4;
+mod ext_c04;
+mod ext_c05;
 mod enc;
 mod gen;
 mod interp;
